@@ -6,6 +6,7 @@ CONSTANTS
   QIds = {1, 2, 3}
   ChanIds = {1, 2, 3}
   ChanCap = 1
+  PopRecheck = TRUE
   ClaimRecheck = TRUE
   MaxTimer = 1
 VIEW View
